@@ -125,9 +125,19 @@ class RProp(Prop):
                     if self.level == 3 and lv[3][3] != 1 and oc not in ("deadlock", "livelock"):
                         problems.append(("mismatch", {"what": "accepted history does not end in a terminal model state"}))
                 mm = {mons[1 + 2 * i]: mons[2 + 2 * i] for i in range((len(mons) - 1) // 2)}
+                # a monitor evaluates the property on the state implied by the events so far; that
+                # state is the model's (hence the implementation's, by the correspondence) only as
+                # long as the history has been accepted at the property's level: a monitor failure
+                # after the first rejected event proves nothing and is not reported as a failing input
+                rej = None
+                for i in range(self.level + 1):
+                    if lv[i][0] != 1:
+                        rej = lv[i][1] if rej is None else min(rej, lv[i][1])
                 for m in self.monitors:
                     if mm.get(m, 0) != 0:
                         idx = mm[m] - 1
+                        if rej is not None and idx > rej:
+                            continue
                         problems.append(("specfail", {"what": "monitor %d (executable statement of %s) fails" % (m, self.pid),
                                                       "event_index": idx,
                                                       "event": r["events"][idx] if idx < len(r["events"]) else None,
